@@ -605,7 +605,15 @@ def numpy_module():
         if all(is_concrete_num(x) for x in a):
             import numpy as _np
             return as_array([float(v) if isinstance(v, _np.floating) else int(v) for v in _np.arange(*a)])
-        raise OutOfSubset('arange with symbolic bound')
+        if len(a) == 1 and isinstance(a[0], SNum) and a[0].im is None:
+            # arange(x) = 0, 1, ..., ceil(x)-1 ; the length is decided by forking (at most 8 elements are explored)
+            stop = a[0]
+            is_float = not stop.is_int
+            for k in range(0, 9):
+                if truth(ops.compare('<=', stop, k)):
+                    return as_array([float(v) if is_float else v for v in range(k)])
+            raise OutOfSubset('arange with symbolic bound above 8')
+        raise OutOfSubset('arange with symbolic bounds')
 
     def np_ones(shape, dtype=None):
         return _zeros(shape, dtype, 1.0)
